@@ -610,7 +610,9 @@ pub fn only_meta_faults(o: &Outcome) -> bool {
         // a premature EOF is the same thing as a shorter file: what the command then makes of the
         // shorter file is judged by O-term / O-diag (as for storage truncation), not compared
         let early_eof = e.op == "read" && e.ret == 0;
-        if !is_meta_op(&e.op) && !early_eof {
+        // a stat that succeeds but reports another size is no reason for different output: compared
+        let size_lie = is_meta_op(&e.op) && e.ret == 0;
+        if (!is_meta_op(&e.op) && !early_eof) || size_lie {
             return false;
         }
     }
@@ -739,7 +741,13 @@ pub fn enumerate_faults(step_idx: usize, golden: &Outcome, space: &FaultSpace) -
             }
             "lseek" if (space.write_side && golden_is_write_fd(golden, e)) || (space.read_side && !golden_is_write_fd(golden, e)) => errs.extend(["ESPIPE", "EIO"]),
             "mkdir" if space.write_side => errs.extend(["EACCES", "ENOSPC", "EIO"]),
-            "stat" | "lstat" | "fstat" if space.meta_side => errs.extend(["ENOENT", "EACCES", "EIO", "ELOOP"]),
+            "stat" | "lstat" | "fstat" if space.meta_side => {
+                errs.extend(["ENOENT", "EACCES", "EIO", "ELOOP"]);
+                // the reported size is a hint, not the length: 0 (pipe-like) and 8 TiB (sparse)
+                for sz in ["0", "8796093022208"] {
+                    out.push(Variant { corrupt: None, plan: Some((step_idx, format!("at={}:size={}", e.seq, sz))), tag: format!("{}@{}:size={}", e.op, e.seq, sz) });
+                }
+            }
             "realpath" if space.meta_side => errs.extend(["ENOENT", "EACCES", "EIO", "ELOOP", "ENAMETOOLONG"]),
             "readlink" if space.meta_side => errs.extend(["EACCES", "EIO"]),
             "getcwd" if space.meta_side => errs.extend(["ENOENT", "EACCES"]),
